@@ -205,6 +205,19 @@ func runC18(c *run.Ctx) {
 		if g.P(0.5) {
 			d1, d2 = dir2, dir
 		}
+		pSame := 0.12
+		if class == "fatal" || class == "severe" { // where the directory's own errors decide the exit status
+			pSame = 0.4
+		}
+		if gs := c.R("samedir"); gs.P(pSame) {
+			// a directory diffed against itself (same path, or spelled with a trailing separator): an empty diff - or the directory's
+			// own errors - on both sides
+			d2 = d1
+			if gs.P(0.5) {
+				d2 = d1 + string(filepath.Separator)
+			}
+			r.Ev("diff_of_a_directory_with_itself", 1)
+		}
 		args := []string{"diff", "--dir1", d1, "--dir2", d2}
 		if format != "" {
 			args = append(args, "-o", format)
